@@ -110,6 +110,10 @@ func idxKeyOf(v interface{}, field string) (string, bool) {
 	if strings.Contains(raw, "<FF>") {
 		raw = strings.ReplaceAll(raw, "<FF>", "\xff")
 	}
+	// "<00>" likewise stands for the byte 0x00
+	if strings.Contains(raw, "<00>") {
+		raw = strings.ReplaceAll(raw, "<00>", "\x00")
+	}
 	return raw, true
 }
 
